@@ -41,6 +41,20 @@ Theorem C14_plugin_marks_exact :
 Proof. exact import_scan_plugin_closure. Qed.
 Print Assumptions C14_plugin_marks_exact.
 
+(** End to end, with NO hypothesis about the intermediate state: for whatever files phase 1
+    selected (test / conftest names), phases 2 to 4 terminate, analyse exactly what is
+    reachable from the selected files and the entry-point plugin files, and mark as plugin
+    files exactly the entry-point plugin files and their hand-on closure. *)
+Theorem C14_scan_end_to_end :
+  forall fd sp dists pths selected,
+    (forall p, In p selected -> (match p with n :: _ => is_test_file_name n | [] => false end) = true) ->
+    let st3 := venv_scan fd sp dists pths (fold_left (fun st p => analyse fd p st) selected (mk_sst [] [])) in
+    exists st', import_scan_opt fd sp dists pths st3 = Some st'
+                /\ (forall q, In q (ss_cached st') <-> reach fd sp dists pths (seed_files fd sp dists pths st3) q)
+                /\ (forall q, In q (ss_plugin st') <-> plugin_reach fd sp dists pths (ss_plugin st3) q).
+Proof. exact scan_end_to_end. Qed.
+Print Assumptions C14_scan_end_to_end.
+
 (** Resolution of an import only looks at the tree (so the three walkers — scanner,
     resolver, completion — see the same graph), and only ever names files that exist. *)
 Theorem C14_resolution_is_state_independent :
